@@ -28,7 +28,9 @@ theorem take_plain {cs : List Cmd} (h : ∀ c ∈ cs, plain c = true) (i : Nat) 
 
 theorem runOne_exec_eq_direct (q : Quirks) (cid : Nat) (st : ExecSt) (now : Nat) (c : Cmd)
     (hb : isBlockingName (nameOf c) = false)
-    (hs : q.selectInExecIgnored = false ∨ nameOf c ≠ "SELECT") :
+    (hs : q.selectInExecIgnored = false ∨ nameOf c ≠ "SELECT")
+    (hcn : q.connCommandsUnderConnZero = false ∨ nameOf c ∉ connectionNames)
+    (hu : q.controlArityUnchecked = false ∨ nameOf c ≠ "UNWATCH") :
     runOne q true cid st now c = runOne q false cid st now c := by
   unfold isBlockingName at hb
   simp only [Bool.or_eq_false_iff, beq_eq_false_iff_ne, ne_eq] at hb
@@ -37,19 +39,23 @@ theorem runOne_exec_eq_direct (q : Quirks) (cid : Nat) (st : ExecSt) (now : Nat)
   · rcases hs with hs | hs
     · simp [h1, hs]
     · exact absurd h1 hs
-  · simp [h1, hb.1, hb.2]
+  · rcases hcn with hcn | hcn <;> rcases hu with hu | hu <;> simp [h1, hb.1, hb.2, hcn, hu]
 
 theorem execFold_exec_eq_direct (q : Quirks) (cid now : Nat) (cs : List Cmd) (st : ExecSt)
     (hb : ∀ c ∈ cs, isBlockingName (nameOf c) = false)
-    (hs : q.selectInExecIgnored = false ∨ ∀ c ∈ cs, nameOf c ≠ "SELECT") :
+    (hs : q.selectInExecIgnored = false ∨ ∀ c ∈ cs, nameOf c ≠ "SELECT")
+    (hcn : q.connCommandsUnderConnZero = false ∨ ∀ c ∈ cs, nameOf c ∉ connectionNames)
+    (hu : q.controlArityUnchecked = false ∨ ∀ c ∈ cs, nameOf c ≠ "UNWATCH") :
     execFold q true cid now st cs = execFold q false cid now st cs := by
   induction cs generalizing st with
   | nil => rfl
   | cons c cs ih =>
     have h1 : runOne q true cid st now c = runOne q false cid st now c :=
       runOne_exec_eq_direct q cid st now c (hb c (by simp)) (hs.imp id fun h => h c (by simp))
+        (hcn.imp id fun h => h c (by simp)) (hu.imp id fun h => h c (by simp))
     rw [execFold_cons, execFold_cons, h1,
-      ih _ (fun x hx => hb x (by simp [hx])) (hs.imp id fun h x hx => h x (by simp [hx]))]
+      ih _ (fun x hx => hb x (by simp [hx])) (hs.imp id fun h x hx => h x (by simp [hx]))
+        (hcn.imp id fun h x hx => h x (by simp [hx])) (hu.imp id fun h x hx => h x (by simp [hx]))]
 
 /-- Frames of a connection that is NOT in a transaction, sent one after another with nothing in
     between, are `execFold … false` on the dataset, component by component. -/
